@@ -71,10 +71,13 @@ def replay(c):
         if lay['extra']:
             tags['Event'], tags['Scoring'] = 'Verification Cup', 'IMP'
             names = ['Event'] + names + ['Scoring']
-        lines += [f'[{k} "{tags[k]}"]{eol}' for k in names]
-        if lay['table']:
-            lines.append('[OptimumResultTable "Declarer;Denomination\\2R;Result\\2R"]' + eol)
-            lines += ['N NT  7' + eol, 'S  S 12' + eol]
+        tpos = {'end': len(names), 'start': 0, 'middle': len(names) // 2}[lay.get('table_pos', 'end')] if lay['table'] else None
+        for j, k in enumerate(names + [None]):
+            if j == tpos:
+                lines.append('[OptimumResultTable "Declarer;Denomination\\2R;Result\\2R"]' + eol)
+                lines += ['N NT  7' + eol, 'S  S 12' + eol]
+            if k is not None:
+                lines.append(f'[{k} "{tags[k]}"]{eol}')
     lines += [x + eol for x in lay['after']]
     text = ''.join(lines)
     try:
